@@ -114,6 +114,6 @@ theorem iter_scaler (s : St P O G Sc) (it : Nat) (b : B) : (iter ops lrAt cfg s 
 theorem runRange_grad_zero (s : St P O G Sc) (a n : Nat) (h : (a + n) % cfg.k = 0) (hn : 0 < n) :
     (runRange ops lrAt cfg batch s a n).grad = ops.zero := by
   obtain ⟨m, rfl⟩ : ∃ m, n = m + 1 := ⟨n - 1, by omega⟩
-  rw [runRange_succ, iter_step _ _ _ _ _ _ (by rw [← Nat.add_assoc]; exact h)]
+  rw [runRange_succ, iter_step _ _ _ _ _ _ (by rw [Nat.add_assoc]; exact h)]
 
 end DirectVerif.Train
